@@ -238,6 +238,7 @@ class Interp:
     def __init__(self, path, contracts=None, loops=None, natives=None, dropped=None, max_depth=60,
                  on_call=None, unroll_limit=64):
         self.path = path
+        models.CURRENT_PATH[0] = path
         self.contracts = contracts or {}   # qualname -> callable(interp, func, args, kwargs) -> value
         self.loops = loops or {}           # (qualname, ordinal) -> LoopSpec
         self.natives = natives or set()    # qualnames forced native
